@@ -10,10 +10,13 @@ import (
 	"github.com/mdlayher/corerad/verifrt/vsched"
 )
 
-func LoadUint32(p *uint32) uint32           { vsched.Point("atomic.Load"); return atomic.LoadUint32(p) }
-func StoreUint32(p *uint32, v uint32)       { vsched.Point("atomic.Store"); atomic.StoreUint32(p, v) }
-func SwapUint32(p *uint32, v uint32) uint32 { vsched.Point("atomic.Swap"); return atomic.SwapUint32(p, v) }
-func AddUint32(p *uint32, d uint32) uint32  { vsched.Point("atomic.Add"); return atomic.AddUint32(p, d) }
+func LoadUint32(p *uint32) uint32     { vsched.Point("atomic.Load"); return atomic.LoadUint32(p) }
+func StoreUint32(p *uint32, v uint32) { vsched.Point("atomic.Store"); atomic.StoreUint32(p, v) }
+func SwapUint32(p *uint32, v uint32) uint32 {
+	vsched.Point("atomic.Swap")
+	return atomic.SwapUint32(p, v)
+}
+func AddUint32(p *uint32, d uint32) uint32 { vsched.Point("atomic.Add"); return atomic.AddUint32(p, d) }
 func CompareAndSwapUint32(p *uint32, o, n uint32) bool {
 	vsched.Point("atomic.CAS")
 	return atomic.CompareAndSwapUint32(p, o, n)
